@@ -138,6 +138,9 @@ pub fn explore(acc: &mut Acc, im: &mut Impl, name: &str, session_text: &str, for
     let mut distinct = false;
     for s in scheds {
         let between = matches!(s, GcSchedule::Every { .. });
+        // the watchdog's limit is per execution, not per program (a long template under all periodic schedules of the
+        // thorough tier takes minutes in total)
+        beat(session_text);
         let run = run_scheduled(im, forms, s.clone(), between, true);
         acc.evals += 1;
         acc.count("instructions_executed", run.instructions);
